@@ -901,18 +901,28 @@ func (e *env) commit(l1, l2 completion) (opName string, out string) {
 	}
 	if err != nil {
 		msg := err.Error()
+		kind := ""
 		switch {
 		case strings.Contains(msg, "stages unreleased"):
-			return "commit", "err staging"
+			kind = "err staging"
 		case strings.Contains(msg, "unexpected empty pipelinedStart"):
 			return "commit", "err empty-range"
 		case !started:
 			e.noteFlushErr()
-			return "commit", "err flush"
+			kind = "err flush"
 		default:
 			e.noteFlushErr()
-			return "commit", "err wait"
+			kind = "err wait"
 		}
+		// the commit did not happen: execute()'s deferred cleanup rolls the flushed locks back (asynchronously)
+		if ps, pe, _ := e.txn.VerifPipelinedRange(); len(ps) != 0 && len(pe) != 0 {
+			r := e.describeResolve(false)
+			if !strings.HasPrefix(r, "ok ") {
+				return "commit", r
+			}
+			kind += " cleanup " + r[3:]
+		}
+		return "commit", kind
 	}
 	if e.isUnreported() {
 		return "commit", "FAIL lost-flush-error"
@@ -946,6 +956,25 @@ func (e *env) rollback(l completion) string {
 		return "ok norange"
 	}
 	return e.describeResolve(false)
+}
+
+// every key sent to the store in a Flush request lies in [pipelinedStart, pipelinedEnd) as the real committer holds them
+func (e *env) chkRange() string {
+	if e.mode != "txn" {
+		return "ok"
+	}
+	ps, pe, _ := e.txn.VerifPipelinedRange()
+	var bad []string
+	for k := range e.lockKeys {
+		if !(bytes.Compare(ps, []byte(k)) <= 0 && bytes.Compare([]byte(k), pe) < 0) {
+			bad = append(bad, vx.Hex([]byte(k)))
+		}
+	}
+	if len(bad) == 0 {
+		return "ok"
+	}
+	sort.Strings(bad)
+	return fmt.Sprintf("FAIL outside-range %s %s %s", vx.Hex(ps), vx.Hex(pe), strings.Join(bad, ","))
 }
 
 func (e *env) chkCovered() string {
@@ -1081,7 +1110,7 @@ func exec1(w []string) string {
 	if e.dead {
 		return "panic deadlock"
 	}
-	if e.over && w[0] != "chk-covered" && w[0] != "chk-flush" {
+	if e.over && w[0] != "chk-covered" && w[0] != "chk-flush" && w[0] != "chk-range" {
 		return "bad-op"
 	}
 	switch w[0] {
@@ -1266,6 +1295,8 @@ func exec1(w []string) string {
 		return e.chkFlush()
 	case "chk-covered":
 		return e.chkCovered()
+	case "chk-range":
+		return e.chkRange()
 	}
 	return "bad-op"
 }
@@ -1478,6 +1509,7 @@ func (g *gen) txnCase(n int) {
 		if g.r.Chance(20) {
 			g.do("flushwait " + g.compTxn(errPct))
 		}
+		g.do("chk-range")
 	}
 	for _, k := range g.keys {
 		g.do("chk-read " + vx.Hex(k))
@@ -1488,6 +1520,88 @@ func (g *gen) txnCase(n int) {
 		g.do("rollback " + g.compTxn(errPct))
 	}
 	g.do("chk-flush")
+	g.do("chk-covered")
+}
+
+// several flushes whose smallest keys ascend / descend / interleave, region borders between those keys, and the three
+// ways a pipelined transaction ends: commit, rollback, failed commit (cleanup)
+func (g *gen) txnRangeCase(n int) {
+	g.run.Comment(fmt.Sprintf("case %d txnrange", n))
+	ladder := [][]byte{{0x61}, {0x62}, {0x62, 0x00}, {0x63}, {0x64}, {0x6d}, {0x6d, 0x01}, {0x70}, {0x74}, {0x7a}, {0x7a, 0xff}, {0x7b}}
+	nf := 2 + g.r.Intn(3)
+	// the smallest key of each flush: nf distinct rungs, kept sorted first
+	var mins []int
+	used := map[int]bool{}
+	for len(mins) < nf {
+		i := g.r.Intn(len(ladder) - 1)
+		if !used[i] {
+			used[i] = true
+			mins = append(mins, i)
+		}
+	}
+	sort.Ints(mins)
+	sorted := append([]int{}, mins...)
+	switch g.r.Intn(3) {
+	case 0: // ascending
+	case 1: // descending
+		for i, j := 0, len(mins)-1; i < j; i, j = i+1, j-1 {
+			mins[i], mins[j] = mins[j], mins[i]
+		}
+	default: // interleaved
+		for i := len(mins) - 1; i > 0; i-- {
+			j := g.r.Intn(i + 1)
+			mins[i], mins[j] = mins[j], mins[i]
+		}
+	}
+	// region borders: between consecutive smallest keys (a rung above the lower one, up to the higher one), plus a few more
+	spl := map[int]bool{}
+	for i := 0; i+1 < len(sorted); i++ {
+		if g.r.Chance(75) {
+			lo, hi := sorted[i]+1, sorted[i+1]
+			spl[lo+g.r.Intn(hi-lo+1)] = true
+		}
+	}
+	for i := range ladder {
+		if g.r.Chance(12) {
+			spl[i] = true
+		}
+	}
+	var sp []string
+	for i := range ladder {
+		if spl[i] {
+			sp = append(sp, vx.Hex(ladder[i]))
+		}
+	}
+	g.do(strings.TrimSpace("reset txn 10000 16777216 134217728 " + strings.Join(sp, " ")))
+	g.keys = ladder
+	for _, m := range mins {
+		g.do("set " + vx.Hex(ladder[m]) + " " + g.val())
+		for j := 0; j < g.r.Intn(3); j++ {
+			k := m + 1 + g.r.Intn(len(ladder)-m-1)
+			if g.r.Chance(80) {
+				g.do("set " + vx.Hex(ladder[k]) + " " + g.val())
+			} else {
+				g.do("del " + vx.Hex(ladder[k]))
+			}
+		}
+		g.do("flush 1 0 ok 0")
+		if g.r.Chance(80) {
+			g.do("flushdone ok 0")
+		}
+		g.do("chk-range")
+	}
+	switch g.r.Intn(3) {
+	case 0:
+		g.do("commit 0 ok 0 ok 0")
+	case 1:
+		g.do("rollback ok 0")
+	default:
+		// failed commit: the commit-time flush is rejected, execute() cleans the flushed locks up
+		g.do("set " + g.key() + " " + g.val())
+		g.do("commit 0 ok 0 err 0")
+	}
+	g.do("chk-flush")
+	g.do("chk-range")
 	g.do("chk-covered")
 }
 
@@ -1532,6 +1646,10 @@ func main() {
 	}
 	for i := 0; i < nTxn; i++ {
 		n++
-		g.txnCase(n)
+		if i%2 == 0 {
+			g.txnCase(n)
+		} else {
+			g.txnRangeCase(n)
+		}
 	}
 }
